@@ -605,18 +605,19 @@ class Explorer:
                 else:
                     # 1. proof attempt (z3)  2. quick bounded refutation  3. cvc5 / z3-retry  4. wider refutation
                     st, secs, backend, smt2 = self._discharge(ob.pc, ob.goal, fallback=False)
-                    if st != 'unsat' and self.refute_bound:
+                    rb = c.opts.get('refute_bound', self.refute_bound)      # per-contract refutation boxes (optional)
+                    if st != 'unsat' and rb:
                         tr = time.time()
-                        cex, rstatus = self.refute(P, c, ob, self.refute_bound[:1], self.refute_quick_ms)
+                        cex, rstatus = self.refute(P, c, ob, rb[:1], c.opts.get('refute_quick_ms', self.refute_quick_ms))
                         secs += time.time() - tr
                     if st != 'unsat' and cex is None:
                         st2, secs2, backend2, smt2b = self._discharge(ob.pc, ob.goal, fallback=True, skip_first=True, smt2=smt2)
                         secs += secs2
                         if st2 == 'unsat':
                             st, backend = st2, backend2
-                        elif self.refute_bound[1:]:
+                        elif rb[1:]:
                             tr = time.time()
-                            cex, rstatus = self.refute(P, c, ob, self.refute_bound[1:], self.refute_timeout_ms)
+                            cex, rstatus = self.refute(P, c, ob, rb[1:], self.refute_timeout_ms)
                             secs += time.time() - tr
                         bf = c.opts.get('bounded_fallback')
                         if st != 'unsat' and cex is None and bf:
